@@ -626,3 +626,126 @@ Proof.
   rewrite E1 in Hk, Ho, Hin. rewrite alk_desc in Hk. rewrite alk_clients in Ho, Hin.
   rewrite E2. apply alk_kicks; assumption.
 Qed.
+
+(* the step in which the last operator leaves locks an autolock group (no
+   hypothesis on the schedule: autoLockKick runs in the same critical
+   section) *)
+Lemma autolock_del_step g id uid g' o :
+  step g (SDelClient id uid) = (g', o) -> o_res o = RDone ->
+  d_autolock (g_desc g) = true -> has_op (g_clients g') = false ->
+  g_locked g' <> None.
+Proof.
+  intros Hst Hres Ha Ho.
+  destruct (del_client_cases g id uid) as [He|(c & _ & _ & He)];
+    cbv zeta in He; rewrite He in Hst; inversion Hst; subst; cbn [o_res] in Hres;
+    [discriminate|].
+  apply alk_AL; [rewrite alk_desc; exact Ha | exact Ho].
+Qed.
+
+(* ... and so does every Add *)
+Lemma autolock_add_step g r g' o :
+  step g (SAdd r) = (g', o) ->
+  d_autolock (g_desc g') = true -> has_op (g_clients g') = false ->
+  g_locked g' <> None.
+Proof.
+  cbn [step]. intros Hst. replace g' with (fst (do_add g r)) by (rewrite Hst; reflexivity).
+  apply do_add_AL.
+Qed.
+
+(* a member that is not the last operator leaving, or an admission, never
+   unlocks: the lock state only changes through SetLocked and autoLockKick *)
+Lemma add_client_locked_same g now j :
+  g_locked (fst (step g (SAddClient now j))) = g_locked g.
+Proof.
+  destruct (add_client_cases g now j) as [(e & _ & He)|(isop & _ & _ & _ & He)];
+    rewrite He; reflexivity.
+Qed.
+
+(* ---- the unlock hypothesis is necessary: group.SetLocked itself has no
+   guard, so a schedule with an unlock while no operator is a member leaves
+   an autolock group unlocked without operator *)
+Definition demo_auth (c : Z) : option bool :=
+  if c =? 0 then Some true else if c =? 2 then Some false else None.
+Definition demo_desc (max : Z) (al ak : bool) : desc := mkDesc max al ak None None demo_auth.
+
+Lemma unguarded_unlock_witness :
+  let d := demo_desc 0 true false in
+  let g := run (created d) [SSetLocked false []] in
+  d_autolock (g_desc g) = true /\ has_op (g_clients g) = false /\ g_locked g = None.
+Proof. vm_compute. repeat split; reflexivity. Qed.
+
+(* ---- regression of F4: before ba2fd43 DelClient ran autoLockKick after
+   releasing Group.mu, i.e. as two atomic steps.  With that split the
+   autolock statement is false: *)
+Inductive old_op :=
+| OStep (s : op)                 (* any step of the current model except SDelClient *)
+| ODelRemove (id : str) (uid : Z) (* first critical section: identity check + removal *)
+| ODelAutoLock.                  (* autoLockKick, after the unlock *)
+
+Definition old_step (g : group) (s : old_op) : group * out :=
+  match s with
+  | OStep s => step g s
+  | ODelRemove id uid =>
+      match lookup id (g_clients g) with
+      | Some c => if c_uid c =? uid
+                  then (mkGroup (g_locked g) (remove_id id (g_clients g)) (g_desc g), mkOut RDone [])
+                  else (g, mkOut RUnknown [])
+      | None => (g, mkOut RUnknown [])
+      end
+  | ODelAutoLock => let '(g1, ev) := auto_lock_kick g in (g1, mkOut RDone ev)
+  end.
+
+Fixpoint old_exec (g : group) (l : list old_op) : list (group * old_op * out * group) :=
+  match l with
+  | [] => []
+  | s :: l' => let r := old_step g s in (g, s, snd r, fst r) :: old_exec (fst r) l'
+  end.
+
+(* J: Add (operator still present) | D: remove the last operator, unlock |
+   J: admission checks -> admitted | D: autoLockKick -> locked *)
+Lemma f4_split_delclient_witness :
+  let d := demo_desc 0 true false in
+  let o := mkJoiner 1 [111] false false 0 in
+  let u := mkJoiner 2 [117] false false 2 in
+  let l := [OStep (SAdd None); OStep (SAddClient 0 o); OStep (SSetLocked false []);
+            OStep (SAdd None); ODelRemove [111] 1; OStep (SAddClient 0 u); ODelAutoLock] in
+  exists pre out post,
+    In (pre, OStep (SAddClient 0 u), out, post) (old_exec (created d) l) /\
+    o_res out = RAdmitted /\ d_autolock (g_desc pre) = true /\
+    has_op (g_clients pre) = false /\ d_auth (g_desc pre) (j_cred u) = Some false.
+Proof.
+  cbv zeta. eexists _, _, _. split.
+  - cbn [old_exec]. do 5 right. left. reflexivity.
+  - vm_compute. repeat split; reflexivity.
+Qed.
+
+(* operators and system clients are not bounded by max-clients *)
+Lemma capacity_ops_exceed_witness :
+  let d := demo_desc 1 false false in
+  let g := run (created d)
+             [SAdd None; SAddClient 0 (mkJoiner 1 [117] false false 2);
+              SAdd None; SAddClient 0 (mkJoiner 2 [118] false false 2);
+              SAdd None; SAddClient 0 (mkJoiner 3 [111] false false 0);
+              SAdd None; SAddClient 0 (mkJoiner 4 [115] true false 9)] in
+  ids (g_clients g) = [[117]; [111]; [115]] /\ d_max_clients (g_desc g) = 1 /\
+  n_plain (g_clients g) = 1.
+Proof. vm_compute. repeat split; reflexivity. Qed.
+
+(* executable form of [guarded_unlocks], for concrete schedules *)
+Fixpoint guarded_b (g : group) (l : list op) : bool :=
+  match l with
+  | [] => true
+  | s :: l' =>
+      match s with SSetLocked false _ => has_op (g_clients g) | _ => true end
+      && guarded_b (fst (step g s)) l'
+  end.
+
+Lemma guarded_b_sound l g : guarded_b g l = true -> guarded_unlocks g l.
+Proof.
+  revert g. induction l as [|s l IH]; intros g H; unfold guarded_unlocks; cbn [exec].
+  - intros ? ? ? ? [].
+  - cbn [guarded_b] in H. apply andb_true_iff in H. destruct H as [H1 H2].
+    intros pre m o post [Hin|Hin].
+    + inversion Hin; subst. exact H1.
+    + exact (IH _ H2 pre m o post Hin).
+Qed.
